@@ -69,6 +69,30 @@ def commented_program(rnd):
     return body
 
 
+PREFIXED = ["#^(+ % 1)", "#^(list % %2)", "#^x", "#'car", "'a", "''a", "'''a", "'(a b)", "''(a (b))", "'[1 2]", "'()", "#^'(a)", "'#^(f %)", "[1 [2]]", "'\"s\"", "-7", "(f 'x)"]
+
+
+def prefix_program(rnd):
+    """comments, blank lines and a hash-bang directly in front of / behind prefix forms (quote marks, #^, #') whose
+    operand is a symbol, a list, a bracket list or another prefix form - at top level and inside lists"""
+    def item():
+        f = rnd.choice(PREFIXED)
+        lead = rnd.choice(["", "", "; lead %d\n" % rnd.randrange(99), ";; block\n; two\n", "\n\n", "\n; after blank\n"])
+        trail = rnd.choice(["", "", " ; trail %d" % rnd.randrange(99)])
+        return lead + f + trail
+    parts = []
+    for _ in range(rnd.randrange(2, 6)):
+        if rnd.random() < 0.4:
+            inner = "\n".join(item() for _ in range(rnd.randrange(1, 4)))
+            parts.append(rnd.choice(["(list\n%s)", "(progn %s\n)", "[%s\n]", "'(%s\n)", "(set 'v\n%s\n)"]) % inner)
+        else:
+            parts.append(item())
+    body = "\n".join(parts) + "\n"
+    if rnd.random() < 0.4:
+        body = "#!/usr/bin/env elps\n" + body
+    return body
+
+
 def run(tier):
     V = Verdict("C16", tier)
     work = Work("C16")
@@ -98,7 +122,7 @@ def _run(V, work, tier):
     if not thorough:
         texts = rnd.sample(texts, min(len(texts), 2500))
     rejected = rnd.sample(rejected, min(len(rejected), 3000 if thorough else 600))
-    progs_ = [commented_program(rnd) for _ in range(1500 if thorough else 250)]
+    progs_ = [commented_program(rnd) for _ in range(1500 if thorough else 250)] + [prefix_program(rnd) for _ in range(2000 if thorough else 400)]
     files = []
     for f in ktrace.repo_lisp_files():
         try:
